@@ -301,6 +301,33 @@ pub fn match_boundary(w: &World, h: &Hist, book: &Book, cfg: &Cfg, r: &mut Rng, 
     st.count_n("C03", "boundary_probes", 5);
 }
 
+/// C08: approval attempted on asks of every class, by every approver (and the recorded approver),
+/// with exact, short and excess escrow
+pub fn approve_probes(w: &World, h: &Hist, book: &Book, cfg: &Cfg, r: &mut Rng, st: &mut Stats, out: &mut Vec<Viol>) {
+    let asks: Vec<&Ask> = book.asks.values().collect();
+    if asks.is_empty() {
+        return;
+    }
+    let a = *r.pick(&asks);
+    let mut senders: Vec<String> = cfg.approvers.clone();
+    if let AskClass::Ready { approver, .. } = &a.class {
+        senders.push(approver.clone());
+    }
+    senders.push(a.owner.clone());
+    senders.extend(cfg.executors.iter().cloned());
+    senders.sort();
+    senders.dedup();
+    for s in &senders {
+        for (size, fund) in [(a.size, a.size), (a.size + 1, a.size + 1), (a.size.saturating_sub(1).max(1), a.size.saturating_sub(1).max(1)), (a.size, a.size + 1), (a.size, a.size.saturating_sub(1))] {
+            let funds = if restricted(w, &cfg.base) { if fund == size { vec![] } else { vec![(cfg.base.clone(), 1)] } } else { vec![(cfg.base.clone(), fund)] };
+            let msg = json!({"approve_ask": {"id": a.id, "base": cfg.base, "size": size.to_string()}});
+            let o = run_probe(w, h, &exec(s, funds, msg), st, out);
+            st.eval("C08", format!("probe|{}|approver:{}|{}", a.class.name(), cfg.approvers.contains(s), o.tag()));
+            st.count("C08", "approve_probes");
+        }
+    }
+}
+
 /// C04: explicit partial sizes from 1 to beyond the remainder
 pub fn reverse_boundary(w: &World, h: &Hist, book: &Book, cfg: &Cfg, r: &mut Rng, st: &mut Stats, out: &mut Vec<Viol>) {
     let executor = match cfg.executors.first() {
